@@ -272,6 +272,9 @@ OPEN_TAG = re.compile(r'^\s*<(?!/|\?|types>)')
 def render(s):
     """(xml text, {line number: entity path})"""
     xml = S.to_xml(s)
+    if s.get('_omit_default_dim'):
+        # exercise the parser's default `dimensionType` ("groupSizeEncoding"): the attribute is left out
+        xml = xml.replace(' dimensionType="groupSizeEncoding"', '')
     lines = [i + 1 for i, l in enumerate(xml.split('\n')) if OPEN_TAG.match(l)]
     paths = entity_paths(s)
     if len(lines) != len(paths):
@@ -1134,6 +1137,281 @@ def m_constants(s, rng):
             yield Mut(c, 'constant', 'nonCharConstantLength', ['types', k['name']], 'constant type with valueRef', 'reject', 'length 2')
 
 
+# ------------------------------------------------------------------ one type, several uses, any order
+
+def _dim_composites(s):
+    return [t for t in s['types'] if t['k'] == 'composite' and t['name'].lower() != s.get('headerType', 'messageHeader').lower()
+            and {'blockLength', 'numInGroup'} <= {x['name'] for x in t['elems']}
+            and 'length' not in {x['name'] for x in t['elems']}]
+
+
+def _var_composites(s):
+    return [t for t in s['types'] if t['k'] == 'composite'
+            and {'length', 'varData'} <= {x['name'] for x in t['elems']}
+            and 'numInGroup' not in {x['name'] for x in t['elems']}]
+
+
+def _mk_group(s, name, dim, datas=()):
+    return {'name': name, 'id': 901, 'dim': dim, 'fields': [{'name': fresh(s, 'sx'), 'id': 902, 'type': 'uint32'}],
+            'groups': [], 'datas': [{'name': fresh(s, 'sd') + str(i), 'id': 903 + i, 'type': v} for i, v in enumerate(datas)]}
+
+
+def _mk_msg(s, name, mid, groups=(), datas=()):
+    return {'name': name, 'id': mid, 'fields': [{'name': fresh(s, 'sf'), 'id': 900, 'type': 'uint32'}],
+            'groups': list(groups), 'datas': [{'name': fresh(s, 'md') + str(i), 'id': 910 + i, 'type': v} for i, v in enumerate(datas)]}
+
+
+def _free_ids(s, n):
+    used = {m['id'] for m in s['messages']}
+    out, i = [], 60001
+    while len(out) < n:
+        if i not in used:
+            out.append(i)
+        i += 1
+    return out
+
+
+def case_variants(name):
+    out = [name]
+    if name.swapcase() != name:
+        out.append(name.swapcase())
+    return out
+
+
+def m_shared_headers(s, rng):
+    """a header composite shared between roles: since no composite is legal both as a group dimension
+    and as a <data> header, every schema that uses one composite in both roles must be rejected —
+    whichever use the validator meets first (sbeppc caches validated headers by lower-cased name)"""
+    dims, vars_ = _dim_composites(s), _var_composites(s)
+    if not dims or not vars_:
+        return
+    ids = _free_ids(s, 4)
+    # ---- (a) <data type> pointing at a group dimension composite D (D has no `length`)
+    for D in dims[:2]:
+        for dn in case_variants(D['name']):
+            exp = ('headerMissingElement', ['types', D['name']])
+            # legal use (group) first, same level: groups are validated before data
+            c = copy.deepcopy(s)
+            m = c['messages'][0]
+            m.setdefault('groups', []).append(_mk_group(s, fresh(s, 'shg'), D['name']))
+            m.setdefault('datas', []).append({'name': fresh(s, 'shd'), 'id': 920, 'type': dn})
+            yield Mut(c, 'shared-header', exp[0], exp[1], 'data -> group dimension; legal use first, same level', 'reject', dn)
+            # legal use first: the data member sits inside the group whose dimension it abuses
+            c = copy.deepcopy(s)
+            g = _mk_group(s, fresh(s, 'shg'), D['name'])
+            g['datas'].append({'name': fresh(s, 'shd'), 'id': 921, 'type': dn})
+            c['messages'][0].setdefault('groups', []).append(g)
+            yield Mut(c, 'shared-header', exp[0], exp[1], 'data -> group dimension; legal use first, data inside that group', 'reject', dn)
+            # legal use first, in an earlier message
+            c = copy.deepcopy(s)
+            c['messages'].insert(0, _mk_msg(s, fresh(s, 'ShA'), ids[0], groups=[_mk_group(s, fresh(s, 'shg'), D['name'])]))
+            c['messages'].append(_mk_msg(s, fresh(s, 'ShB'), ids[1], datas=[dn]))
+            yield Mut(c, 'shared-header', exp[0], exp[1], 'data -> group dimension; legal use first, later message', 'reject', dn)
+            # illegal use first: data in the first message, the group only later
+            c = copy.deepcopy(s)
+            c['messages'].insert(0, _mk_msg(s, fresh(s, 'ShA'), ids[0], datas=[dn]))
+            c['messages'].append(_mk_msg(s, fresh(s, 'ShB'), ids[1], groups=[_mk_group(s, fresh(s, 'shg'), D['name'])]))
+            yield Mut(c, 'shared-header', exp[0], exp[1], 'data -> group dimension; illegal use first, earlier message', 'reject', dn)
+            # illegal use first, same message: data inside an earlier sibling group
+            c = copy.deepcopy(s)
+            g1 = _mk_group(s, fresh(s, 'shg'), dims[-1]['name'] if dims[-1] is not D else D['name'])
+            g1['datas'] = [{'name': fresh(s, 'shd'), 'id': 922, 'type': dn}]
+            c['messages'].insert(0, _mk_msg(s, fresh(s, 'ShA'), ids[0], groups=[g1, _mk_group(s, fresh(s, 'shh'), D['name'])]))
+            yield Mut(c, 'shared-header', exp[0], exp[1], 'data -> group dimension; data in an earlier sibling group', 'reject', dn)
+    # ---- (b) dimensionType pointing at a data header composite V (V has no `numInGroup`)
+    for V in vars_[:2]:
+        for vn in case_variants(V['name']):
+            exp = ('headerMissingElement', ['types', V['name']])
+            # illegal use first, same level (groups before data)
+            c = copy.deepcopy(s)
+            c['messages'].insert(0, _mk_msg(s, fresh(s, 'ShA'), ids[0], groups=[_mk_group(s, fresh(s, 'shg'), vn)],
+                                         datas=[V['name']]))
+            yield Mut(c, 'shared-header', exp[0], exp[1], 'dimensionType -> data header; illegal use first, same level', 'reject', vn)
+            # legal use first, same level: an earlier sibling group contains the data member
+            c = copy.deepcopy(s)
+            g1 = _mk_group(s, fresh(s, 'shg'), dims[0]['name'], datas=[V['name']])
+            c['messages'].insert(0, _mk_msg(s, fresh(s, 'ShA'), ids[0], groups=[g1, _mk_group(s, fresh(s, 'shh'), vn)]))
+            yield Mut(c, 'shared-header', exp[0], exp[1], 'dimensionType -> data header; legal use first, earlier sibling group', 'reject', vn)
+            # legal use first, nested: the offending group is nested in a group that already used V for data
+            c = copy.deepcopy(s)
+            g1 = _mk_group(s, fresh(s, 'shg'), dims[0]['name'])
+            g0 = _mk_group(s, fresh(s, 'shh'), dims[0]['name'], datas=[V['name']])
+            g1['groups'] = [g0, _mk_group(s, fresh(s, 'shi'), vn)]
+            c['messages'].insert(0, _mk_msg(s, fresh(s, 'ShA'), ids[0], groups=[g1]))
+            yield Mut(c, 'shared-header', exp[0], exp[1], 'dimensionType -> data header; legal use first, nested group', 'reject', vn)
+            # legal use first, earlier message
+            c = copy.deepcopy(s)
+            c['messages'].insert(0, _mk_msg(s, fresh(s, 'ShA'), ids[0], datas=[V['name']]))
+            c['messages'].append(_mk_msg(s, fresh(s, 'ShB'), ids[1], groups=[_mk_group(s, fresh(s, 'shg'), vn)]))
+            yield Mut(c, 'shared-header', exp[0], exp[1], 'dimensionType -> data header; legal use first, later message', 'reject', vn)
+            # illegal use first, earlier message
+            c = copy.deepcopy(s)
+            c['messages'].insert(0, _mk_msg(s, fresh(s, 'ShA'), ids[0], groups=[_mk_group(s, fresh(s, 'shg'), vn)]))
+            c['messages'].append(_mk_msg(s, fresh(s, 'ShB'), ids[1], datas=[V['name']]))
+            yield Mut(c, 'shared-header', exp[0], exp[1], 'dimensionType -> data header; illegal use first, earlier message', 'reject', vn)
+    # ---- (c) composites with the members of BOTH headers: legal as dimension, never legal as data header
+    mk = lambda n, p, **kw: dict({'k': 'type', 'name': n, 'prim': p}, **kw)   # noqa: E731
+    layouts = [
+        ('bl,num,length,varData', [mk('blockLength', 'uint16'), mk('numInGroup', 'uint16'), mk('length', 'uint16'),
+                                   mk('varData', 'uint8', length=0)]),
+        ('length,varData,bl,num', [mk('length', 'uint32'), mk('varData', 'char', length=0), mk('blockLength', 'uint16'),
+                                   mk('numInGroup', 'uint8')]),
+        ('num,length,bl,varData + offsets', [mk('numInGroup', 'uint8'), mk('length', 'uint8', offset=2),
+                                             mk('blockLength', 'uint32', offset=4), mk('varData', 'uint8', length=0, offset=8)]),
+        ('varData,length,num,bl', [mk('varData', 'int8', length=0), mk('length', 'uint64'), mk('numInGroup', 'uint16'),
+                                   mk('blockLength', 'uint16')]),
+    ]
+    for desc, elems in layouts:
+        both = fresh(s, 'SizeEncoding')
+        exp = ('dataHeaderLayout', ['types', both, 'length'])
+        for bn in case_variants(both):
+            base = copy.deepcopy(s)
+            base['types'].append({'k': 'composite', 'name': both, 'elems': copy.deepcopy(elems)})
+            c = copy.deepcopy(base)
+            c['messages'].insert(0, _mk_msg(s, fresh(s, 'ShA'), ids[0], groups=[_mk_group(s, fresh(s, 'shg'), both)]))
+            yield Mut(c, 'shared-header', None, ['types', both], 'both-role composite (%s) used as dimension only' % desc, 'accept', bn)
+            c = copy.deepcopy(base)
+            c['messages'].insert(0, _mk_msg(s, fresh(s, 'ShA'), ids[0], groups=[_mk_group(s, fresh(s, 'shg'), both)], datas=[bn]))
+            yield Mut(c, 'shared-header', exp[0], exp[1], 'both-role composite (%s); group first, same level' % desc, 'reject', bn)
+            c = copy.deepcopy(base)
+            c['messages'].insert(0, _mk_msg(s, fresh(s, 'ShA'), ids[0], groups=[_mk_group(s, fresh(s, 'shg'), bn, datas=[both])]))
+            yield Mut(c, 'shared-header', exp[0], exp[1], 'both-role composite (%s); data inside the group it dimensions' % desc, 'reject', bn)
+            c = copy.deepcopy(base)
+            c['messages'].insert(0, _mk_msg(s, fresh(s, 'ShA'), ids[0], datas=[bn]))
+            c['messages'].append(_mk_msg(s, fresh(s, 'ShB'), ids[1], groups=[_mk_group(s, fresh(s, 'shg'), both)]))
+            yield Mut(c, 'shared-header', exp[0], exp[1], 'both-role composite (%s); data first, group in a later message' % desc, 'reject', bn)
+            c = copy.deepcopy(base)
+            c['messages'].insert(0, _mk_msg(s, fresh(s, 'ShA'), ids[0], groups=[_mk_group(s, fresh(s, 'shg'), both)]))
+            c['messages'].append(_mk_msg(s, fresh(s, 'ShB'), ids[1], datas=[bn]))
+            yield Mut(c, 'shared-header', exp[0], exp[1], 'both-role composite (%s); group first, data in a later message' % desc, 'reject', bn)
+    # ---- (d) the default dimensionType: groups without the attribute use `groupSizeEncoding`
+    if find(s['types'], 'groupSizeEncoding') is None:
+        D = dims[0]
+        base = copy.deepcopy(s)
+        rename_type(base, D['name'], 'groupSizeEncoding')
+        base['_omit_default_dim'] = True
+        c = copy.deepcopy(base)
+        c['messages'].insert(0, _mk_msg(s, fresh(s, 'ShA'), ids[0], groups=[_mk_group(s, fresh(s, 'shg'), 'groupSizeEncoding')]))
+        yield Mut(c, 'shared-header', None, ['types', 'groupSizeEncoding'], 'default dimensionType', 'accept', 'attribute omitted')
+        for dn in ('groupSizeEncoding', 'GROUPSIZEENCODING'):
+            exp = ('headerMissingElement', ['types', 'groupSizeEncoding'])
+            c = copy.deepcopy(base)
+            c['messages'].insert(0, _mk_msg(s, fresh(s, 'ShA'), ids[0], groups=[_mk_group(s, fresh(s, 'shg'), 'groupSizeEncoding')],
+                                         datas=[dn]))
+            yield Mut(c, 'shared-header', exp[0], exp[1], 'data -> default dimension composite; group first', 'reject', dn)
+            c = copy.deepcopy(base)
+            c['messages'].insert(0, _mk_msg(s, fresh(s, 'ShA'), ids[0], datas=[dn]))
+            c['messages'].append(_mk_msg(s, fresh(s, 'ShB'), ids[1], groups=[_mk_group(s, fresh(s, 'shg'), 'groupSizeEncoding')]))
+            yield Mut(c, 'shared-header', exp[0], exp[1], 'data -> default dimension composite; data first', 'reject', dn)
+        # a schema without any `groupSizeEncoding` whose group omits the attribute
+        c = copy.deepcopy(s)
+        c['_omit_default_dim'] = True
+        c['messages'].append(_mk_msg(s, fresh(s, 'ShB'), ids[1], groups=[_mk_group(s, fresh(s, 'shg'), 'groupSizeEncoding')]))
+        yield Mut(c, 'shared-header', 'headerUnknown', ['messages', c['messages'][-1]['name'], c['messages'][-1]['groups'][0]['name']],
+                  'default dimensionType without a groupSizeEncoding composite', 'reject', '')
+
+
+def m_use_order(s, rng):
+    """the same public type referenced from two places of which only one is a legal use, in both
+    orders: no validator state (visited / validated sets, the case-insensitive type map) may make
+    the verdict depend on which use is met first"""
+    types = s['types']
+    ids = _free_ids(s, 2)
+    plain_comps = [t for t in types if t['k'] == 'composite' and t['name'].lower() not in header_composites(s)]
+    enums = [t for t in types if t['k'] == 'enum']
+
+    def two_fields(s0, f_good, f_bad, bad_first):
+        c = copy.deepcopy(s0)
+        fs = [f_bad, f_good] if bad_first else [f_good, f_bad]
+        m = _mk_msg(s, fresh(s, 'UoA'), ids[0])
+        m['fields'] = [dict(f) for f in fs]
+        c['messages'].insert(0, m)
+        return c, ['messages', m['name'], f_bad['name']]
+
+    def two_msgs(s0, f_good, f_bad, bad_first):
+        c = copy.deepcopy(s0)
+        ma, mb = _mk_msg(s, fresh(s, 'UoA'), ids[0]), _mk_msg(s, fresh(s, 'UoB'), ids[1])
+        (ma if bad_first else mb)['fields'] = [dict(f_bad)]
+        (mb if bad_first else ma)['fields'] = [dict(f_good)]
+        c['messages'].insert(0, ma)
+        c['messages'].append(mb)
+        return c, ['messages', (ma if bad_first else mb)['name'], f_bad['name']]
+
+    for place, build in (('same message', two_fields), ('two messages', two_msgs)):
+        for bad_first in (False, True):
+            order = 'illegal use first' if bad_first else 'legal use first'
+            # a composite as a required field and as a constant field
+            for C in plain_comps[:1]:
+                for cn in case_variants(C['name']):
+                    good = {'name': fresh(s, 'uo1'), 'id': 930, 'type': C['name']}
+                    bad = {'name': fresh(s, 'uo2'), 'id': 931, 'type': cn, 'presence': 'constant'}
+                    c, path = build(s, good, bad, bad_first)
+                    yield Mut(c, 'use-order', 'compositeFieldConstant', path, 'composite as field and as constant field; %s, %s' % (order, place),
+                              'reject', cn)
+            # header composites used as plain field types as well (legal) next to a constant use (illegal)
+            for H in (_dim_composites(s)[:1] + _var_composites(s)[:1]):
+                good = {'name': fresh(s, 'uo1'), 'id': 930, 'type': H['name']}
+                bad = {'name': fresh(s, 'uo2'), 'id': 931, 'type': H['name'].swapcase(), 'presence': 'constant'}
+                c, path = build(s, good, bad, bad_first)
+                yield Mut(c, 'use-order', 'compositeFieldConstant', path, 'header composite as field and as constant field; %s, %s' % (order, place),
+                          'reject', H['name'])
+            # an enum as a field type, as a fitting valueRef target and as a non-fitting one
+            for E in enums[:2]:
+                enc = E['enc']
+                prim = enc if enc in S.PRIM_SIZE else find(types, enc)['prim']
+                if prim == 'char':
+                    continue
+                big = max(E['values'], key=lambda v: int(v['value']))
+                small = [p for p in ('int8', 'uint8', 'int16') if not (INT_RANGE[p][0] <= int(big['value']) <= INT_RANGE[p][1])]
+                ref = '%s.%s' % (E['name'], big['name'])
+                good = {'name': fresh(s, 'uo1'), 'id': 930, 'type': 'uint64', 'presence': 'constant', 'valueRef': ref}
+                if small:
+                    bad = {'name': fresh(s, 'uo2'), 'id': 931, 'type': small[0], 'presence': 'constant', 'valueRef': ref.swapcase()
+                           if False else ref}
+                    c, path = build(s, good, bad, bad_first)
+                    yield Mut(c, 'use-order', 'valueRefOutOfRange', path, 'enum value as fitting and non-fitting valueRef; %s, %s' % (order, place),
+                              'reject', ref)
+                bad = {'name': fresh(s, 'uo2'), 'id': 931, 'type': E['name'], 'presence': 'constant',
+                       'valueRef': '%s.%s' % (E['name'], fresh(s, 'nov'))}
+                good2 = {'name': fresh(s, 'uo1'), 'id': 930, 'type': E['name']}
+                c, path = build(s, good2, bad, bad_first)
+                yield Mut(c, 'use-order', 'noSuchValidValue', path, 'enum as field type and as target of a dangling valueRef; %s, %s' % (order, place),
+                          'reject', E['name'])
+    # a public array type: legal as a field, illegal as enum encodingType / as the `length` of a data header
+    arrays = [t for t in types if t['k'] == 'type' and t.get('presence') != 'constant' and t.get('length', 1) not in (0, 1)
+              and t['prim'] in ('uint8', 'char', 'int8')]
+    for A in arrays[:1]:
+        for an in case_variants(A['name']):
+            for where in ('before', 'after'):
+                c = copy.deepcopy(s)
+                en = {'k': 'enum', 'name': fresh(s, 'UoE'), 'enc': an, 'values': [{'name': 'A', 'value': 1 if A['prim'] != 'char' else 'A'}]}
+                user = {'k': 'composite', 'name': fresh(s, 'UoC'), 'elems': [{'k': 'ref', 'name': 'r', 'type': A['name']}]}
+                c['types'][0:0] = [en, user] if where == 'before' else [user, en]
+                yield Mut(c, 'use-order', 'encodingTypeLength', ['types', en['name']],
+                          'array type as ref target (legal) and as enum encodingType (illegal), enum %s the legal user' % where, 'reject', an)
+            c = copy.deepcopy(s)
+            vn = fresh(s, 'UoVar')
+            c['types'].append({'k': 'composite', 'name': vn, 'elems': [{'k': 'ref', 'name': 'length', 'type': an},
+                                                                       {'k': 'type', 'name': 'varData', 'prim': 'uint8', 'length': 0}]})
+            m = _mk_msg(s, fresh(s, 'UoA'), ids[0], datas=[vn])
+            m['fields'] = [{'name': fresh(s, 'uo1'), 'id': 930, 'type': A['name']}]
+            c['messages'].insert(0, m)
+            yield Mut(c, 'use-order', 'headerElementArray', ['types', vn, 'length'],
+                      'array type as field (legal) and as `length` of a data header through a ref (illegal)', 'reject', an)
+    # one data header composite, many legal uses in every position: must stay accepted (cache hit paths)
+    vars_ = _var_composites(s)
+    dims = _dim_composites(s)
+    if vars_ and dims:
+        V, D = vars_[0]['name'], dims[0]['name']
+        c = copy.deepcopy(s)
+        g = _mk_group(s, fresh(s, 'uog'), D, datas=[V, V.swapcase()])
+        g['groups'] = [_mk_group(s, fresh(s, 'uoh'), D.swapcase(), datas=[V])]
+        c['messages'].insert(0, _mk_msg(s, fresh(s, 'UoA'), ids[0], groups=[g, _mk_group(s, fresh(s, 'uoi'), D)], datas=[V, V]))
+        c['messages'].append(_mk_msg(s, fresh(s, 'UoB'), ids[1], groups=[_mk_group(s, fresh(s, 'uoj'), D.swapcase(), datas=[V.swapcase()])]))
+        yield Mut(c, 'use-order', None, ['messages'], 'headers reused legally at every level, in both spellings', 'accept', '')
+
+
+
 def m_parser(s):
     """parser-level rules that are expressible on the AST"""
     for addr, path, e, kind in walk_elems(s):
@@ -1181,4 +1459,6 @@ def _mutants(s, rng):
     yield from m_names(s, rng)
     yield from m_duplicates(s, rng)
     yield from m_constants(s, rng)
+    yield from m_shared_headers(s, rng)
+    yield from m_use_order(s, rng)
     yield from m_parser(s)
